@@ -708,6 +708,10 @@ type TaskInfo struct {
 	Site    string
 	Done    bool
 	Blocked string
+	// shape of the operation the task is parked on: how many send and receive
+	// cases it offers (0/0 when it is not a channel operation)
+	Sends, Recvs int
+	Enabled      bool
 }
 
 // Tasks lists every task created so far.
@@ -721,7 +725,15 @@ func Tasks() []TaskInfo {
 		ti := TaskInfo{ID: t.id, Name: t.name, Site: t.site, Done: t.done}
 		if t.pend != nil {
 			ti.Blocked = t.pend.kind + "@" + t.pend.site
+			for _, c := range t.pend.cases {
+				if c.dir == dirSend {
+					ti.Sends++
+				} else {
+					ti.Recvs++
+				}
+			}
 		}
+		ti.Enabled = s.isEnabled(t)
 		out = append(out, ti)
 	}
 	return out
